@@ -396,7 +396,7 @@ pub struct LinkCase {
 pub fn case_text(c: &Case) -> String {
     let ch = |v: &Vec<ChanSpec>| if v.is_empty() { "-".to_string() } else { v.iter().map(|c| format!("{}:{}:{}:{}:{}", c.id, c.ordered as u8, c.negotiated as u8,
         c.max_retransmits.map(|v| v.to_string()).unwrap_or("-".into()), c.max_lifetime.map(|v| v.to_string()).unwrap_or("-".into()))).collect::<Vec<_>>().join(";") };
-    let mt = |ph: u8| c.msgs.iter().filter(|m| m.phase == ph).map(|m| format!("{}{}:{}", if m.side == 0 { "A" } else { "B" }, m.chan, m.data.len())).collect::<Vec<_>>().join(";");
+    let mt = |ph: u8| c.msgs.iter().filter(|m| m.phase == ph).map(|m| format!("{}{}:{}{}", if m.side == 0 { "A" } else { "B" }, m.chan, m.data.len(), if m.task != 0 { format!("@{}", m.task) } else { String::new() })).collect::<Vec<_>>().join(";");
     let ms = if c.msgs.is_empty() { "-".to_string() } else if c.msgs.iter().any(|m| m.phase == 1) { format!("{}|{}", mt(0), mt(1)) } else { mt(0) };
     let ep = |e: &EpCfg| format!("{}:{}:{}:{}:{}:{}:{}", e.rwnd, e.rto_initial_ms, e.max_burst, e.max_cwnd,
         e.seed_tsn.map(|v| v.to_string()).unwrap_or("-".into()), e.seed_tag.map(|v| v.to_string()).unwrap_or("-".into()), e.max_buffered);
@@ -436,8 +436,9 @@ pub fn parse_case(s: &str) -> Option<Case> {
         for (ph, part) in kv.get("msgs")?.split('|').enumerate() {
             for m in part.split(';').filter(|m| !m.is_empty()) {
                 let (a, len) = m.split_once(':')?; let side = if a.starts_with('A') { 0 } else { 1 }; let chan: u16 = a[1..].parse().ok()?;
+                let (len, task) = match len.split_once('@') { Some((l, t)) => (l, t.parse().ok()?), None => (len, 0u8) };
                 let i = idx.entry((side, chan)).or_insert(0usize); let d = payload(side, chan, *i, len.parse().ok()?); *i += 1;
-                msgs.push(Msg { side, chan, data: d, phase: ph as u8, task: 0 });
+                msgs.push(Msg { side, chan, data: d, phase: ph as u8, task });
             }
         }
     }
